@@ -7,7 +7,7 @@ TEXT = ("Over the runtime model (Lean): the todo function always fails with its 
         "an overridden parameter/service is what every later Get/GetParam receives, a fresh container has evaluated no provider and a cached parameter is not "
         "evaluated again (todo_param_errors, todo_service_errors, override_*_visible, params_lazy, param_cached, param_first_use); todo definitions count as declared "
         "(C06). The model is tied to the generated code by running ALL histories over {GetParam, Get, OverrideParam, OverrideService} up to a bounded length on "
-        "small configurations with every subset of definitions marked todo, with invocation counters in the fixtures; key clauses are also judged directly.")
+        "small configurations with every subset of definitions marked todo, with invocation counters in the fixtures; key clauses are also judged directly. Whole histories of GetParam: param_evaluated_at_most_once (a cached value is never replaced, its provider never runs again, only providers of uncached parameters run), getParam_frame (services, overrides, heap untouched), cached_param_answers.")
 TECHNIQUE = "Lean 4 theorems over the runtime model (cache/override lemmas) + exhaustive bounded histories: runtime model vs compiled generated code (probe)"
 LEAN_PROPS = ["C15"]
 TRUSTED = ["gontainer-helpers/v3 caching and override semantics are modelled (Model/Runtime.lean), tied by level B"]
